@@ -109,6 +109,9 @@ type veEnv struct {
 	failedSeen        map[string]bool
 	freezeOnTxOf      string
 	freezeOnPollOf    string
+	burstMin          int
+	delDelay          time.Duration
+	earlyDelete       int
 	sentLogged        map[string]int // sent-log records written per (name, hash), across a restart
 	recoveryOvercount int
 	jam               bool // the receiver refuses every request
@@ -257,6 +260,14 @@ func (s *veStore) Remove(f sts.File) error {
 		b, _ := os.ReadFile(aside)
 		h = veMD5(b)
 		held = s.e.receiverHolds(f.GetName(), h)
+		// the tag's delete-delay: a file is deleted only once it is that old
+		if s.e.delDelay > 0 {
+			if info, err := os.Stat(aside); err == nil && time.Since(info.ModTime()) < s.e.delDelay {
+				s.e.mu.Lock()
+				s.e.earlyDelete++
+				s.e.mu.Unlock()
+			}
+		}
 	}
 	ver := ""
 	if s.e.versionOf != nil {
@@ -533,7 +544,16 @@ func (e *veEnv) validate(sent []sts.Pollable) ([]sts.Polled, error) {
 		pf = e.pollFault[0]
 		e.pollFault = e.pollFault[1:]
 	}
+	if e.burstMin > 0 && len(sent) >= e.burstMin {
+		// the first poll that covers this many files takes half a second and reports them all as failed
+		// (the receiver had a bad moment): a burst of retries while the sender is busy sending
+		e.burstMin = 0
+		pf = "slowfail"
+	}
 	e.mu.Unlock()
+	if pf == "slowfail" {
+		time.Sleep(500 * time.Millisecond)
+	}
 	if pf == "slow" {
 		time.Sleep(1300 * time.Millisecond) // the answer takes longer than the idle period of the retry workers
 	}
@@ -557,6 +577,9 @@ func (e *veEnv) validate(sent []sts.Pollable) ([]sts.Polled, error) {
 		}
 		if pf == "none" {
 			code = sts.ConfirmNone
+		}
+		if pf == "slowfail" {
+			code = sts.ConfirmFailed
 		}
 		out = append(out, &vePolled{Pollable: f, code: code})
 		desc = append(desc, fmt.Sprintf("%s=%d", f.GetName(), code))
@@ -619,6 +642,9 @@ type veScenario struct {
 	stopAfterMs       int           // the stop request arrives this long after start (wall clock), whatever the sender is doing
 	jam               bool          // the receiver refuses every request, for the whole run
 	crashOnPollOf     string        // the sender dies while the poll answer covering this file is on its way back
+	burstMin          int           // the first poll covering at least this many files is slow and answers "failed" for all of them
+	pollInterval      time.Duration // (0 = 10 ms)
+	pollMax           int           // (0 = 1..3 by scenario)
 	reuseCrash        bool          // ... and the sender dies when it is about to send the new version (then restarts)
 	mutate            string        // name of a file rewritten while queued
 	stopAfterTx       int           // stop at the k-th interface event counted from the first answer to a data request
@@ -655,7 +681,17 @@ func veContent(f veFileSpec, version int) []byte {
 // vePollMax: how many files go into one poll request (also at restart recovery): small, so that
 // batches are split (derived from the scenario so that a scenario is reproducible)
 func vePollMax(sc veScenario) int {
+	if sc.pollMax > 0 {
+		return sc.pollMax
+	}
 	return 1 + (len(sc.files)+sc.threads+int(sc.payload))%3
+}
+
+func vePollInterval(sc veScenario) time.Duration {
+	if sc.pollInterval > 0 {
+		return sc.pollInterval
+	}
+	return 10 * time.Millisecond
 }
 
 func veScanDelay(sc veScenario) time.Duration {
@@ -694,7 +730,7 @@ func (e *veEnv) newBroker(sc veScenario) (*Broker, *veStore) {
 		Validator: e.validate, Logger: &veSentLog{FileIO: e.slog, e: e}, Tagger: func(string) string { return "" },
 		CacheAge: time.Hour, ScanDelay: veScanDelay(sc), Threads: sc.threads,
 		PayloadSize: units.Base2Bytes(sc.payload), StatInterval: time.Hour,
-		PollDelay: 5 * time.Millisecond, PollInterval: 10 * time.Millisecond, PollAttempts: 3, PollMaxCount: vePollMax(sc),
+		PollDelay: 5 * time.Millisecond, PollInterval: vePollInterval(sc), PollAttempts: 3, PollMaxCount: vePollMax(sc),
 		Tags: []*FileTag{{Name: "", InOrder: true, Delete: sc.del, DeleteDelay: sc.delDelay}}, ErrorBackoff: 0,
 	}}
 	return b, ws
@@ -716,7 +752,7 @@ func veRun(tmp string, sc veScenario) string {
 		crashed: make(chan bool, 1), block: make(chan bool),
 		faults: append([]veFault{}, sc.faults...), pollFault: append([]string{}, sc.pollFault...),
 		failHeadOf: sc.failHeadOf, failHeadN: sc.failHeadN, slowOpenAfterFail: sc.slowOpenAfterFail,
-		jam: sc.jam, freezeOnPollOf: sc.crashOnPollOf, freezeAt: sc.crashAt, freezeAfterTx: sc.crashAfterTx, stopAt: sc.stopAt, stopAfterTx: sc.stopAfterTx, stopAtPoll: sc.stopAtPoll}
+		jam: sc.jam, burstMin: sc.burstMin, delDelay: sc.delDelay, freezeOnPollOf: sc.crashOnPollOf, freezeAt: sc.crashAt, freezeAfterTx: sc.crashAfterTx, stopAt: sc.stopAt, stopAfterTx: sc.stopAfterTx, stopAtPoll: sc.stopAtPoll}
 	for _, d := range []string{e.out, e.cacheDir, e.stageDir, e.finalDir} {
 		os.MkdirAll(d, 0o755)
 	}
@@ -1112,6 +1148,18 @@ func veRun(tmp string, sc veScenario) string {
 			}
 		}
 		facts["confirmed_left_unrecorded"] = fmt.Sprint(unrecorded)
+		// C16: a graceful stop polls every transmitted file to a verdict: what the receiver holds complete and
+		// validated at the end of a run without validation failures is marked done in the queue cache
+		unpolled := 0
+		if finished && !restarted && sc.stopKind == "graceful" && sc.mutate == "" && sc.swap == "" && !sc.reuse {
+			for name, f := range eligible {
+				c := broker.Conf.Cache.Get(name)
+				if c != nil && !c.IsDone() && e.receiverHolds(name, veMD5(veContent(f, ver(name)))) {
+					unpolled++
+				}
+			}
+		}
+		facts["delivered_left_unpolled"] = fmt.Sprint(unpolled)
 	}
 	facts["sent_before_all_acked"] = fmt.Sprint(e.sentEarly)
 	facts["tx_calls"] = fmt.Sprint(e.txCalls)
@@ -1195,6 +1243,7 @@ func veRun(tmp string, sc veScenario) string {
 		}
 	}
 	facts["sent_logged_twice"] = fmt.Sprint(twice)
+	facts["early_delete"] = fmt.Sprint(e.earlyDelete)
 	e.mu.Unlock()
 	if staged > 0 {
 		facts["staged_names"] = strings.Join(stagedNames, ",")
@@ -1306,6 +1355,31 @@ func veGen(r *gen.Rand, id string, profile string) veScenario {
 		sc.stopKind = "now"
 		sc.stopAt = 100000
 		sc.stopAfterMs = 2600 + r.Intn(1500)
+	case "ring":
+		// a long backlog of one-payload files, one connection; polls are made every 60 ms in batches of up to
+		// 40 files; the first poll that covers 6 or more files takes half a second and answers "failed" for all
+		// of them: a burst of files comes back for a re-send while the pipeline is full
+		sc.files = nil
+		for i := 0; i < 70+r.Intn(30); i++ {
+			sc.files = append(sc.files, veFileSpec{name: fmt.Sprintf("ring.f%03d", i), size: 30 + r.Intn(10), seedb: byte(1 + r.Intn(200)), age: time.Duration(2+r.Intn(50)) * time.Second, eligible: true})
+		}
+		sc.threads = 1
+		sc.payload, sc.chunk = 40, 40
+		sc.pollInterval = 60 * time.Millisecond
+		sc.pollMax = 40
+		sc.burstMin = 6
+	case "stopburst":
+		// a one-shot run (graceful stop right after start): more small files than the poller's channel holds,
+		// all in one payload - they complete together - and the first poll answer is slow: the tracker still
+		// has complete files in its hands when its input closes
+		sc.files = nil
+		for i := 0; i < 8+r.Intn(6); i++ {
+			sc.files = append(sc.files, veFileSpec{name: fmt.Sprintf("burst.f%02d", i), size: 3 + r.Intn(20), seedb: byte(1 + r.Intn(200)), age: time.Duration(2+r.Intn(50)) * time.Second, eligible: true})
+		}
+		sc.threads = 1
+		sc.payload, sc.chunk = 2000, 2000
+		sc.stopKind, sc.stopAt = "graceful", 0
+		sc.pollFault = []string{"slow"}
 	case "stopfail":
 		// a one-shot run (graceful stop right after start) in which every file fails validation and the
 		// verdicts arrive late: more failed verdicts than the retry channel holds, with nobody left to read it
